@@ -23,7 +23,7 @@ func init() {
 // perturbation kinds per property; one campaign per kind so that a divergence is attributed to exactly one kind.
 var twinKinds = map[string][]string{
 	"C11": {"checktx", "simulate", "store-query", "custom-query", "app-query", "checktx-burst"},
-	"C13": {"custom-query-history", "app-query-history", "dispatch", "mixed-offchain"},
+	"C13": {"custom-query-history", "app-query-history", "dispatch", "mixed-offchain", "app-query-history-repeated"},
 }
 
 // baseScript: a chaos history with 7 applications whose stakes are edited all the time (the application LRU holds 5).
@@ -164,6 +164,24 @@ func perturb(rr *rand.Rand, sc chain.Script, g chain.GenSpec, kind string, densi
 					past = h - 1
 				}
 				op = chain.MidOp{Kind: "appquery", What: what, Arg: arg, Height: past}
+			case "app-query-history-repeated":
+				// the same record at the same few past heights, asked for again and again (every request after the first
+				// for a height is answered from the node's cache of historical contexts), each request issued twice
+				what := []string{"app", "app", "app", "node", "apps", "balance"}[rr.Intn(6)]
+				arg := chain.AddrHex(chain.KeyAcct0 + rr.Intn(6))
+				switch what {
+				case "node":
+					arg = chain.AddrHex(chain.KeyNode0 + rr.Intn(8))
+				case "app":
+					arg = chain.AddrHex(chain.KeyApp0 + rr.Intn(7))
+				}
+				past = chain.BootstrapBlocks + 1 + rr.Int63n(3)
+				if past >= h {
+					past = h - 1
+				}
+				op = chain.MidOp{Kind: "appquery", What: what, Arg: arg, Height: past, Pos: pos}
+				st.Mid = append(st.Mid, op)
+				n++
 			case "dispatch":
 				op = chain.MidOp{Kind: "dispatch", Arg: chain.PubHex(chain.KeyApp0 + rr.Intn(7)), Arg2: []string{"0001", "0021"}[rr.Intn(2)]}
 			}
@@ -182,7 +200,7 @@ func checkTwins(r *ev.Run, id string) {
 	if id == "C11" {
 		r.Rule("case = (generated history, perturbation kind): twin node processes execute the same blocks; twin B additionally receives off-chain calls of ONE kind at PRNG-chosen positions between any two ABCI calls (before BeginBlock, between DeliverTx calls, before EndBlock, after Commit): CheckTx of valid / badly signed / unsigned transactions of several message types; /app/simulate of the same; ABCI store queries (key with and without proof, subspace) at latest and past heights; ABCI custom queries (application, applications, validator, validators); app.Query* RPC functions. Oracles: (1) raw digests of every persistent store are taken immediately before and after each off-chain call and must be equal; (2) per-tx results and app hashes of all later blocks equal the unperturbed twin's. Non-trivial = the perturbed twin executed >= 20 off-chain calls and both twins finished; distinct = (script digest, kind).")
 	} else {
-		r.Rule("case = (generated history with 7 applications whose stakes change constantly (the application LRU holds 5), jailing, unstaking, chain edits; perturbation kind): twin B additionally serves ONE kind of off-chain traffic between ABCI calls: ABCI custom queries at PAST heights (application / validator records), app.Query* at past heights, dispatch requests for live sessions, or a mix (plus CheckTx). Oracles: per-tx results and app hashes of every block equal the twin that never served anything (node-local caches must not leak into consensus); store digests unchanged across each call. A second family (kind dispatch-then-claims): claim/proof lifecycles with jailing and unstaking in mid-session on nodes whose session cache holds only 2..4 entries; twin B serves dispatches for every application x chain before and after every block, so that claim validation meets cached and spilled sessions where twin A computes them from state. Relay handling and restarts are exercised by C34/C35/C37. Non-trivial = >= 20 off-chain calls executed and both twins finished; distinct = (script digest, kind).")
+		r.Rule("case = (generated history with 7 applications whose stakes change constantly (the application LRU holds 5), jailing, unstaking, chain edits; perturbation kind): twin B additionally serves ONE kind of off-chain traffic between ABCI calls: ABCI custom queries at PAST heights (application / validator records), app.Query* at past heights, dispatch requests for live sessions, a mix (plus CheckTx), or app.Query* for the same few records at the same three past heights over and over, each request issued twice (answered from the node's cache of historical contexts). Oracles: per-tx results and app hashes of every block equal the twin that never served anything (node-local caches must not leak into consensus); store digests unchanged across each call. A second family (kind dispatch-then-claims): claim/proof lifecycles with jailing and unstaking in mid-session on nodes whose session cache holds only 2..4 entries; twin B serves dispatches for every application x chain before and after every block, so that claim validation meets cached and spilled sessions where twin A computes them from state. Relay handling and restarts are exercised by C34/C35/C37. Non-trivial = >= 20 off-chain calls executed and both twins finished; distinct = (script digest, kind).")
 	}
 	r.Assume("off-chain calls are issued sequentially from the driver at the chosen positions (a live node would serve them from RPC goroutines; positions cover every gap between ABCI calls)")
 	type job struct {
